@@ -610,3 +610,72 @@ Proof.
   - injection E as <- _ _. exact B.
   - pose proof (admm_nonneg_loop solve UtM UtU m r tol n x1 (Some xs1) d1 B) as H. rewrite E in H. exact H.
 Qed.
+
+(* ---------- any entrywise proximal operator: what a reproduced state satisfies; l1_reg: the lasso conditions ---------- *)
+Section Entrywise.
+Variables (solve : mat -> mat -> mat) (UtM UtU : mat) (m r : nat) (f : R -> R).
+Notation rho := (admm_rho Rops UtU r).
+Hypothesis WG : wfm r r UtU.
+Hypothesis WB : wfm m r UtM.
+Hypothesis SOLVE : forall B, wfm r m B -> solves r m (admm_lhs Rops UtU r) B (solve (admm_lhs Rops UtU r) B).
+
+Lemma admm_fixed_point_entries x d : wfm m r x -> wfm m r d ->
+  let b := admm_body Rops solve (mmap f) UtM UtU m r x d in
+  fst (fst b) = x -> snd b = d ->
+  forall c i, (c < m)%nat -> (i < r)%nat ->
+    Mget x c i = f (Mget x c i - Mget d c i) /\
+    rsum r (fun k => Mget UtU k i * Mget x c k) - Mget UtM c i = rho * Mget d c i.
+Proof.
+  intros Wx Wd. cbv zeta. rewrite admm_body_struct. cbv zeta. cbn [fst snd].
+  set (B := admm_rhs UtM UtU r x d).
+  assert (WBm : wfm r m B).
+  { apply wfm_transpose. apply (wfm_mmap2 m r); [exact WB|]. apply wfm_mmap. now apply wfm_mmap2. }
+  destruct (SOLVE B WBm) as [WS HS]. set (S := solve (admm_lhs Rops UtU r) B) in *.
+  intros Hx Hd c i Hc Hi. rewrite Hx in Hd.
+  assert (XS : forall k, (k < r)%nat -> Mget x c k = Mget S k c).
+  { intros k Hk. assert (E : Mget (msub Rops (madd Rops d x) (mtranspose Rops m S)) c k = Mget d c k) by now rewrite Hd.
+    rewrite (admm_dual_entry m r) in E by assumption. lra. }
+  split.
+  - assert (E : Mget (mmap f (msub Rops (mtranspose Rops m S) d)) c i = Mget x c i) by now rewrite Hx.
+    rewrite (mget_mmap m r) in E; try assumption; [|apply wfm_mmap2; [apply wfm_transpose; apply WS | exact Wd]].
+    rewrite (admm_proxarg_entry m r) in E by assumption. rewrite <- (XS i Hi) in E. now rewrite E.
+  - specialize (HS i c Hi Hc).
+    rewrite (rsum_ext r _ (fun k => Mget UtU k i * Mget x c k + rho * ((if Nat.eqb k i then 1 else 0) * Mget x c k))) in HS.
+    2:{ intros k Hk. rewrite (admm_lhs_entry UtU r i k WG Hi Hk), (XS k Hk). ring. }
+    rewrite rsum_add, rsum_scale in HS.
+    rewrite (rsum_single r i (fun k => (if Nat.eqb k i then 1 else 0) * Mget x c k)) in HS.
+    2: exact Hi.
+    2:{ intros k Hk Hne. apply Nat.eqb_neq in Hne. rewrite Hne. ring. }
+    rewrite Nat.eqb_refl in HS. unfold B in HS. rewrite (admm_rhs_entry UtM UtU m r) in HS by assumption. lra.
+Qed.
+End Entrywise.
+
+Lemma soft1_fixed t x d : 0 < t -> x = soft1 Rops t (x - d) ->
+  - t <= d <= t /\ (0 < x -> d = - t) /\ (x < 0 -> d = t).
+Proof.
+  intros Ht. unfold soft1, fsign, relu, fabs, fltb. cbn [fleb fmul fsub fopp f0 f1 Rops]. unfold Rleb.
+  repeat (destruct (Rle_dec _ _); cbn [negb]); intros E; repeat split; intros; lra.
+Qed.
+
+(* admm with l1_reg = t > 0: a state (x, dual_var) that one loop body reproduces satisfies the optimality conditions of
+   min 1/2 z' UtU z - UtM_c z + (rho t) |z|_1 row by row: the gradient g of the quadratic part is rho * dual_var,
+   |g| <= rho t everywhere, g = - rho t where x > 0, g = rho t where x < 0 *)
+Theorem admm_l1_fixed_point_kkt (solve : mat -> mat -> mat) (UtM UtU : mat) (m r : nat) (t : R) :
+  wfm r r UtU -> wfm m r UtM -> 0 < admm_rho Rops UtU r -> 0 < t ->
+  (forall B, wfm r m B -> solves r m (admm_lhs Rops UtU r) B (solve (admm_lhs Rops UtU r) B)) ->
+  forall x d, wfm m r x -> wfm m r d ->
+  let b := admm_body Rops solve (apply_constr Rops (KL1 t)) UtM UtU m r x d in
+  fst (fst b) = x -> snd b = d ->
+  forall c i, (c < m)%nat -> (i < r)%nat ->
+    let g := rsum r (fun k => Mget UtU k i * Mget x c k) - Mget UtM c i in
+    - (admm_rho Rops UtU r * t) <= g <= admm_rho Rops UtU r * t /\
+    (0 < Mget x c i -> g = - (admm_rho Rops UtU r * t)) /\ (Mget x c i < 0 -> g = admm_rho Rops UtU r * t).
+Proof.
+  intros WG WB Hrho Ht SV x d Wx Wd. cbv zeta.
+  assert (E : admm_body Rops solve (apply_constr Rops (KL1 t)) UtM UtU m r x d = admm_body Rops solve (mmap (soft1 Rops t)) UtM UtU m r x d).
+  { unfold admm_body. cbn [apply_constr]. destruct (is0 Rops t) eqn:Z; [apply is0_R in Z; lra | reflexivity]. }
+  rewrite E. intros Hx Hd c i Hc Hi.
+  destruct (admm_fixed_point_entries solve UtM UtU m r (soft1 Rops t) WG WB SV x d Wx Wd Hx Hd c i Hc Hi) as [F G].
+  rewrite G. destruct (soft1_fixed t _ _ Ht F) as (A & B & C).
+  split; [split; nra|]. split; intros P; [rewrite (B P) | rewrite (C P)]; ring.
+Qed.
